@@ -41,17 +41,21 @@ IsEvent(name) == More /\ Ev.e = name
 
 ToSet(sq) == {sq[i] : i \in 1..Len(sq)}
 
-KOf(c) == [lineup |-> c.lineup, alts |-> ToSet(c.alts), kind |-> c.kind, E |-> c.E, callsizes |-> {},
+(* the number of draws the seed cascade takes is not part of any property: every trace is tried with each candidate number *)
+Burns == 0..8
+KOf0(c) == [burn |-> 0, lineup |-> c.lineup, alts |-> ToSet(c.alts), kind |-> c.kind, E |-> c.E, callsizes |-> {},
            maxbatches |-> 9999, maxcalls |-> 9999, lossvals |-> {}, convon |-> c.convon,
            verboses |-> {c.verbose}, savings |-> {c.saving}, njobs |-> {1},
            faultsat |-> {"sampler", "model", "loss"}, restore |-> TRUE]
+KOfB(c, b) == [KOf0(c) EXCEPT !.burn = b]
+KOf(c) == KOf0(c)
 
 TInit ==
   /\ tid \in 1..Len(Traces)
   /\ l = 1
   /\ pidmap = [x \in {} |-> 0]
   /\ chosen = <<>>
-  /\ K = KOf(Traces[tid].cfg)
+  /\ K \in {KOfB(Traces[tid].cfg, b) : b \in Burns}
   /\ pc = "idle"
   /\ cfg = [verbose |-> Traces[tid].cfg.verbose, saving |-> Traces[tid].cfg.saving, njobs |-> 1]
   /\ todo = 0 /\ call = None /\ bi = 0 /\ ns = 0 /\ hist = <<>> /\ cur = NoCur /\ rng = 0
